@@ -2,7 +2,7 @@
    out.  Used by the extracted runner and by vm_compute replays. *)
 From Coq Require Import String.
 From SQLair.Base Require Import Bytes Sexp.
-From SQLair.Model Require Import Parser ParserDump Reflect TypeInfo Bind BindDump Iter IterDump.
+From SQLair.Model Require Import Parser ParserDump Reflect TypeInfo Bind BindDump Iter IterDump Cache CacheDump.
 
 Definition run_request (req : list sexp) : str :=
   match req with
@@ -26,7 +26,11 @@ Definition run_request (req : list sexp) : str :=
   | [SList l] =>
       match run_iter_line l with
       | Some out => out
-      | None => lit "BAD-REQUEST shape"
+      | None =>
+          match run_cache_line l with
+          | Some out => out
+          | None => lit "BAD-REQUEST shape"
+          end
       end
   | _ => lit "BAD-REQUEST shape"
   end.
